@@ -8,6 +8,7 @@ ENTRY = {
                    "Context.ClientIP inside the route handler and inside the 404/405/OPTIONS handlers must agree with it. Nil handlers, nil middleware, nil routes and "
                    "routes with up to 131073 wildcards keep ParamsLen equal to their count whenever they are accepted; eleven kinds of annotation key (nil, slice, map, func, structs/arrays/interfaces holding those) must give ErrInvalidConfig/ErrInvalidRoute, no panic, and an unchanged router.",
         level_note="A nil router-wide resolver given after a real one is not judged (documentation and code differ, the property only speaks of per-route nil). NewRoute with a nil handler is not probed (not named by the property).",
+        level_more='Later additions: option values shared between routers, resolvers whose value is the zero value of its type, a route that declines its requests through Router.HandleNoRoute (answering or panicking no-route handler), patterns with a percent sign, 30-wildcard accessors.',
         rule="cases: (global option sequence, route option sequence, pattern[, update sequence]) and invalid-value cases; non-trivial = at least two options touch the same setting, or an ill-typed/nil value; distinct by the whole case",
         assumptions=["resolvers return distinguishable addresses", "global options are immutable after New"],
         quick=[REPLAY, R("options", "^(TestOptionSequences|TestInvalidOptions|TestAccessorsManyWildcards)$", checks=8000, timeout=600),
